@@ -7,7 +7,11 @@ linear kernel: coefficients, bias, stop reason and iteration count bit-for-bit; 
 correspondence of C08 (same model, run by `./check C08`);  (3) K-C07[oracle]: the configuration cross
 (kernel, bias, shrinking, precomputed/cached with small caches, C grid, accuracies) through the real trainer with
 an independent oracle (own kernel matrix, box, equality constraint, KKT(eps), bias interval, objective) and a
-comparison of the objectives across configurations against the proved bound 2*eps*sum(U-L).
+comparison of the objectives across configurations against the proved bound 2*eps*sum(U-L);  (4) K-C07[extended]
+(harness c07x): the trainers and axes (1)-(3) do not reach -- SquaredHingeCSvmTrainer, RankingSvmTrainer (duality-gap oracle),
+MissingFeatureSvmTrainer, double kernel cache, sparse inputs (incl. the GaussianKernelMatrix path), real cache sizes from two
+rows upward (the trainer's own optimize() behind CachedMatrix(&km, size)), warm starts from arbitrary coefficients / from a
+machine trained on a subset / with the other bias setting, iteration and time limits with truthful stop types.
 """
 import math, os, re
 from vlib import core
@@ -54,14 +58,44 @@ MANIFEST = dict(
         "(own kernel matrix; box, equality constraint incl. sum = 1 for one-class, KKT(eps), bias interval, reported objective) "
         "runs over the configuration cross trainer kind x bias x shrinking x precomputed/cache sizes x one/class-specific C x "
         "weighted/unweighted x cold/warm x C x eps x {linear, Gaussian} and compares the objectives across configurations "
-        "against 2*eps*sum(U-L)."),
+        "against 2*eps*sum(U-L). "
+        "ROUND deep3 -- statements about the machine that is RETURNED (Lemmas/SvmUnpermute.lean, Props/C07.lean section Returned, "
+        "Props/C07b.lean): Tied (the per-variable data of every solver state are the original linear term and boxes seen through "
+        "the permutation; kept by solve: solve_tied), perm_surj / rsum_perm (the accumulated permutation is a bijection; sums "
+        "re-index), unperm_* (getUnpermutedAlpha: coefficient sum, K*alpha, dual objective, boxes in original coordinates), "
+        "solve_sum_svm_partial (every run of the equality-constrained solver keeps the coefficient sum), solve_acc_pass. "
+        "solve_returned_optimal_box / csvm_nobias_returned_optimal / csvm_nobias_warm_returned_optimal (FULL strength, every "
+        "previous coefficient vector): AccuracyReached => the un-permuted vector a lies in the ORIGINAL boxes, violates KKT by at "
+        "most eps for its true gradient lin0 - K a against the ORIGINAL kernel matrix, functionValue() = lin0.a - 1/2 a^T K a, "
+        "and no vector in the boxes is more than eps*sum(U0-L0) better. solve_returned_optimal_svm(_partial), "
+        "csvm_bias_returned_optimal(_partial), csvm_bias_warm_returned_optimal(_partial): the same with sum a = 0, pairwise KKT, "
+        "near-optimality among vectors of the same sum and the computeBias interval G_x - b <= eps / b - G_x <= eps on the original "
+        "data; eps_regression_returned(_partial): variable doubling beta_k = a_k + a_{n+k} (rsum_block), 0 <= a_k <= C, "
+        "-C <= a_{n+k} <= 0, sum beta = 0 and the four tube conditions of the offset per training point; oneclass_returned(_partial): "
+        "0 <= a <= 1/(nu n), sum a = 1, offset interval with zero linear term. The _partial versions assume the C++ sentinels "
+        "+-1e100 are not crossed during the run; Props/C07b.lean discharges that from the DATA (sentinelOK_of_bounds, "
+        "passStates_sentinel_of_bounds: |K| <= kappa and |lin0| + kappa*sum max(|L0|,|U0|) < 1e100), so the versions without "
+        "_partial have no hypothesis about the run. Harness c07x + generator: see note."),
   note=TRUST + "Hypotheses carried by the theorems: PSD-ness and symmetry of the kernel matrix (kkt_eps_near_optimal, config_independence); "
        "the C08 state invariant (proved for every admissible solver history in Props/C08.lean: reachable_inv); bias_in_kkt_interval "
        "is _partial (|gradient| > 1e100 is accepted by the C++ and breaks it: witness theorem). NOT proved: that the solver reaches the accuracy (termination); Gaussian kernels only "
        "through the toleranced oracle. Found by this check and repaired in /repo (fix: commits, known_findings.json `fixed`): "
        "F-C07-1..6 (EpsilonSvmTrainer offset, warm-start clipping x2, float warm-start gradient, zero-weight bias, weighted "
-       "warm start without bias throws).",
-  technique="Lean 4 proof on a solver/trainer model + differential correspondence with the C++ trainers (bit-for-bit on exact data) + independent KKT oracle",
+       "warm start without bias throws). Round deep3: exercised with an independent oracle but NOT modelled: SquaredHingeCSvmTrainer "
+       "(dual over K + diag(1/(2C_i)): box, equality, KKT, bias interval, objective), RankingSvmTrainer (pair coefficients are not "
+       "returned: weak duality and duality gap <= eps*C*#pairs of the returned expansion against the reported dual value), "
+       "MissingFeatureSvmTrainer (one outer iteration), time limits (QpTimeout only with a limit; QpMaxIterationsReached exactly at the "
+       "limit; reported accuracy < eps when AccuracyReached), the reported objective of UNCONVERGED runs. Tied to the model bit for bit "
+       "in addition: double cache, sparse inputs, cache sizes 2 rows..n*n+5 (trainer's optimize() behind CachedMatrix(&km,size): "
+       "setCacheSize itself is ignored by the binary trainers), explicit previous coefficients that are clipped and re-balanced. "
+       "Sparse/dense and float/double twins must agree bit for bit on integer points (linear and dyadic Gaussian). Theorem hypotheses "
+       "that exclude inputs the real code accepts were run on the real code: warm start with in-box coefficients of non-zero sum "
+       "(hypothesis of warm_start_inv) -> F-C07-9. Open findings of this round (known_findings.json): F-C07-7 squared-hinge bias "
+       "with class-specific C, F-C07-8 stale objective/gradient when stopping on the iteration or time limit with shrinking, F-C07-9, "
+       "F-C07-10 warm start across bias settings (throws / keeps the old offset; root in KernelExpansion::setStructure). NOT reached: "
+       "HMG selection through a trainer (C08 runs it on the solver), s2do flag (unused by the binary trainers), budgeted/SGD trainers "
+       "(other optimisation problems), LinearCSvmTrainer (C16).",
+  technique="Lean 4 proof on a solver/trainer model (end to end, in original coordinates) + differential correspondence with the C++ trainers (bit-for-bit on exact data) + independent KKT / duality-gap oracle",
   design="§6 C07")
 
 FINISH = dict(level="proof",
@@ -69,10 +103,17 @@ FINISH = dict(level="proof",
                    "C on a dyadic grid 2^-3..2^6 (one or class-specific), example weights in {0, 1/4, 1/2, 1, 2}, regression labels "
                    "half-integers, tube in {1/8, 1/2, 1, 2}, nu in {1/8..3/4}, eps in {1e-3, 2^-10, 2^-4, 2^-16}; configuration cross "
                    "trainer kind x bias x shrinking x precomputed/cache size x weighted x cold/warm x kernel {linear, rbf}; "
+                   "extended (c07x): kinds {C-SVM, squared hinge, eps-regression, one-class, ranking, missing-feature} on point styles {plain, "
+                   "duplicates, all equal, zero vectors, one axis, scaled by 64, by 1/64}, n from 1 (one-class) / 2 upward, weak and strong "
+                   "regularisation 2^-10 / 2^12, x {float, double cache} x {dense, sparse} x {cached, precomputed, explicit cache of 2 rows..n*n+3} "
+                   "x warm start {none, previous training, arbitrary vector (wild, at bounds, zero, feasible), subset machine, other bias setting} "
+                   "x limits {maxit 0..17, maxSeconds 0 / 1e-9 / 1e6}; slow family (n 30..40, C 2^10, eps 2^-16) for time limits and the 1000-iteration clock; "
                    "non-trivial = solver ran at least 2 iterations; distinct = distinct op text")
 
-LAKE_TARGETS = ["SharkVerif.Props.C07", "drv_c07"]
+LAKE_TARGETS = ["SharkVerif.Props.C07", "SharkVerif.Props.C07b", "drv_c07"]
 PID = "C07"
+# one OpenMP thread per harness process: the parallel loops of KernelMatrix::row over a dozen entries cost 400x on a loaded machine
+HENV = dict(OMP_NUM_THREADS="1", ASAN_OPTIONS="detect_leaks=0")
 tok = c08.tok
 
 
@@ -83,6 +124,12 @@ def translate(ctx):
 def build(ctx):
     tag = "" if core.REPO == "/repo" else "-" + core.sha(core.REPO)[:8]
     return ctx.harness("c07" + tag, ["c07.cpp"], repo_sources=["src/Core/Random.cpp"])
+
+
+def build_x(ctx):
+    """second harness: the extended trainers / axes (two translation units, compiled in parallel)"""
+    tag = "" if core.REPO == "/repo" else "-" + core.sha(core.REPO)[:8]
+    return ctx.harness("c07x" + tag, ["c07x.cpp", "c07xs.cpp"], repo_sources=["src/Core/Random.cpp"])
 
 
 def gen_data(r, quick):
@@ -115,7 +162,7 @@ def classify(ops, res):
         return f"crash:{tag}:{head[0]}", f"harness aborted ({tag}) on {ops}"
     if res.oracle:
         m = re.search(r"!oracle (\S+?)(?:[@(]|\s|$)", res.oracle[0])
-        bias = head[1] if head[0] == "csvm" else head[3]
+        bias = head[1] if head[0] == "csvm" else (head[4] if head[0] in ("csvm3", "trx") else head[3])
         return f"oracle:{m.group(1)}:bias={bias}", f"property oracle failed ({res.oracle[0][res.oracle[0].index('!oracle'):][:200]}) on {ops[0][:200]}"
     return f"mismatch:{head[0]}", f"trainer model and CSvmTrainer disagree at line {res.diff_at} of {ops[0][:200]}"
 
@@ -128,15 +175,15 @@ def run(ctx):
                         "exact arithmetic in the theorems; the Float instance is tied bit-for-bit on integer-point data",
                         "the solver sees the kernel through its float cache: the oracle rounds its own kernel entries to float as well"]
     translate(ctx)
-    ctx.prove(["SharkVerif.Props.C07"])
+    ctx.prove(["SharkVerif.Props.C07", "SharkVerif.Props.C07b"])
     if not ctx.quick:
-        ctx.leanchecker(["SharkVerif.Props.C07"])
+        ctx.leanchecker(["SharkVerif.Props.C07", "SharkVerif.Props.C07b"])
     exe = build(ctx)
     drv = ctx.driver("drv_c07")
     if not exe or not drv:
         return
     r = ctx.rng.fork("c07")
-    nmodel, ncross = (60, 8) if ctx.quick else (1000, 150)
+    nmodel, ncross = (200, 20) if ctx.quick else (2000, 200)
     # (1) model vs trainer, bit for bit
     cases = []
     corpus_dir = os.path.join(core.VERIF, "corpus", PID)
@@ -181,7 +228,7 @@ def run(ctx):
             nu = r.choice([0.25, 0.5, 0.75, 0.125])
             cases.append([f"ocsvm {shrink} {tok(nu)} {tok(eps)} {maxit} {n} {d} {pts}"])
         ctx.hist("model_op", kind)
-    res = core.run_case(ctx, [exe], [drv], [c[0] for c in cases], timeout=900)
+    res = core.run_case(ctx, [exe], [drv], [c[0] for c in cases], timeout=900, env=HENV)
     its = [int(m.group(1)) for l in res.impl for m in [re.search(r"it=(\d+)", l)] if m]
     for it in its:
         ctx.hist("iterations", min(it // 5 * 5, 100))
@@ -190,7 +237,47 @@ def run(ctx):
         ctx.count("traces_validated_against_impl", len(cases)); ctx.count("ops_compared", len(cases))
         ctx.log(f"K-C07[model: trainer == Float model, bit for bit]: {len(cases)} trainings agree")
     else:
-        core.correspond(ctx, "K-C07[model: trainer == Float model, bit for bit]", cases, [exe], [drv], classify)
+        core.correspond(ctx, "K-C07[model: trainer == Float model, bit for bit]", cases, [exe], [drv], classify, env=HENV)
+    # (1b) the same trainer model against the real trainer on the axes the model does not have: double cache, sparse inputs,
+    # real cache sizes from the minimum of two rows upward (pre = 2), explicit previous coefficients (clipped and re-balanced)
+    exx = build_x(ctx)
+    if exx:
+        cases3 = []
+        for _ in range(nmodel // 2):
+            n = r.range(2, 9 if ctx.quick else 14); d = r.range(1, 3)
+            style, xs = gen_points(r, n, d, ctx.quick)
+            ys = [float(r.below(2)) for _ in range(n)]
+            if all(y == ys[0] for y in ys): ys[r.below(n)] = 1.0 - ys[0]
+            p1 = 2.0 ** r.range(-3, 6); p2 = p1 if r.chance(1, 3) else 2.0 ** r.range(-3, 6)
+            weighted = r.below(2)
+            ws = [r.choice([1.0, 1.0, 0.5, 2.0, 0.25, 0.0]) if weighted and r.chance(1, 2) else 1.0 for _ in range(n)]
+            pre, cache = r.choice([(0, 0), (1, 0), (2, 2 * n), (2, 2 * n), (2, 2 * n + 1), (2, 3 * n + 1), (2, n * n + 5)])
+            wm = r.choice([0, 0, 1, 2])
+            a1 = [0.0] * n
+            if wm == 2:          # arbitrary previous coefficients; one of them lies outside its box, so the trainer clips and re-balances
+                Cmax = 2 * max(p1, p2)
+                a1 = [r.range(-8, 8) * Cmax / 8 for _ in range(n)]
+                a1[r.below(n)] = r.choice([-1.0, 1.0]) * 4 * Cmax
+            cfg = dict(kind="c", kern="lin", gamma=1.0, bias=r.below(2), shrink=r.below(2), pre=pre, cache=cache,
+                       eps=r.choice([1e-3, 2.0 ** -10, 2.0 ** -4, 2.0 ** -16]), maxit=r.choice([4000, 4000, 4000, 3, 17]), maxsec=None,
+                       warmmode=wm, warmit=r.choice([1, 3, 10, 100000]), warmfac=r.choice([1.0, 4.0, 0.25]), weighted=weighted, p1=p1, p2=p2,
+                       dbl=r.below(2), sparse=r.below(2), n=n, d=d, xs=xs, ys=ys, ws=ws, a1=a1)
+            cases3.append([trx_line("csvm3", cfg)])
+            ctx.hist("csvm3_config", f"pre={pre} dbl={cfg['dbl']} sparse={cfg['sparse']} warm={wm}")
+            ctx.hist("csvm3_points", style)
+            if pre == 2: ctx.hist("csvm3_cache_rows", round(cache / n, 1))
+        with open(os.path.join(core.CACHE, "c07_csvm3_ops.txt"), "w") as f:      # kept for post-mortems of a stuck run
+            f.write("\n".join(c[0] for c in cases3) + "\n")
+        res3 = core.run_case(ctx, [exx], [drv], [c[0] for c in cases3], timeout=900, env=HENV)
+        its3 = [int(m.group(1)) for l in res3.impl for m in [re.search(r"it=(\d+)", l)] if m]
+        its += its3
+        if res3.ok:
+            ctx.count("traces_validated_against_impl", len(cases3)); ctx.count("ops_compared", len(cases3))
+            ctx.log(f"K-C07[model: trainer == Float model on double cache / sparse inputs / real cache sizes / given start vectors]: "
+                    f"{len(cases3)} trainings agree")
+        else:
+            core.correspond(ctx, "K-C07[model: trainer == Float model, extended axes]", cases3, [exx], [drv], classify, env=HENV)
+        cases += cases3
     # (2) configuration cross through the real trainer, oracle + objective comparison
     ncfg = nviol = 0
     for _ in range(ncross):
@@ -205,7 +292,7 @@ def run(ctx):
                 for pre, cache in ((1, 0), (0, 0), (0, 2 * n), (0, 3 * n + 1)):
                     lines.append(f"cfg {kern} {tok(gamma)} {bias} {shrink} {pre} {cache} {tok(C)} {tok(eps)} " + data_text(n, d, xs, ys))
             rc, out = core.sh([exe], input="\n".join(lines) + "\n", timeout=600,
-                              env=dict(os.environ, ASAN_OPTIONS="detect_leaks=0"))
+                              env=dict(os.environ, **HENV))
             outs = out.splitlines()
             ncfg += len(lines)
             ctx.hist("kernel", kern)
@@ -223,9 +310,10 @@ def run(ctx):
                 if nviol <= 3:
                     ctx.violation(key, {"harness_cmd": [exe], "ops": [l], "impl_output": [o[:2000]]}, found_input=True,
                                   what=f"trainer-level oracle: {o[o.find('!oracle'):][:300]}")
-    ngeneral = run_general(ctx, exe, r.fork("general"), 12 if ctx.quick else 150)
+    ngeneral = run_general(ctx, exe, r.fork("general"), 40 if ctx.quick else 300)
+    next_ = run_extended(ctx, exx, r.fork("extended"), 90 if ctx.quick else 700) if exx else 0
     ctx.cov["configurations_trained"] = ncfg
-    ctx.cov["evaluations"] = len(cases) + ncfg + ngeneral
+    ctx.cov["evaluations"] = len(cases) + ncfg + ngeneral + next_
     ctx.cov["distinct_nontrivial"] = sum(1 for it in its if it >= 2)
     ctx.sample({"op": cases[len(cases) // 2][0][:200]})
     ctx.log(f"K-C07[oracle]: {ncfg} trainer configurations, {nviol} with oracle failures")
@@ -311,7 +399,7 @@ def run_general(ctx, exe, r, ngen):
         ctx.hist("general_kind", info["kind"] + ("+w" if info["weighted"] else ""))
         for lines in groups:
             rc, out = core.sh([exe], input="\n".join(lines) + "\n", timeout=900,
-                              env=dict(os.environ, ASAN_OPTIONS="detect_leaks=0"))
+                              env=dict(os.environ, **HENV))
             outs = out.splitlines()
             ntr += len(lines)
             bad = [(l, o) for l, o in zip(lines, outs) if "!oracle" in o or o.startswith("exception") or o == "bad-op"]
@@ -340,17 +428,272 @@ def run_general(ctx, exe, r, ngen):
     return ntr
 
 
+# ----------------------------------------------------------------------------- extended trainers / axes (harness c07x)
+TRX_NFIX = 21
+
+def trx_line(op, c):
+    """c: dict with all fields of a `trx` op"""
+    n = c["n"]
+    return (f"{op} {c['kind']} {c['kern']} {tok(c['gamma'])} {c['bias']} {c['shrink']} {c['pre']} {c['cache']} {tok(c['eps'])} "
+            f"{c['maxit']} {'inf' if c['maxsec'] is None else tok(c['maxsec'])} {c['warmmode']} {c['warmit']} {tok(c['warmfac'])} "
+            f"{c['weighted']} {tok(c['p1'])} {tok(c['p2'])} {c['dbl']} {c['sparse']} {n} {c['d']} "
+            + " ".join(tok(v) for x in c["xs"] for v in x) + " " + " ".join(tok(v) for v in c["ys"]) + " "
+            + " ".join(tok(v) for v in c["ws"]) + " " + " ".join(tok(v) for v in c["a1"]))
+
+
+def gen_points(r, n, d, quick):
+    """integer points with the boundary classes: duplicates, all equal, zero vectors, one coordinate only, scaled"""
+    style = r.choice(["plain", "plain", "dup", "allsame", "zeros", "axis", "scaled", "tiny"])
+    xs = [[float(r.range(-3, 3)) for _ in range(d)] for _ in range(n)]
+    if style == "dup" and n > 1:
+        for _ in range(r.range(1, max(1, n // 2))):
+            xs[r.below(n)] = list(xs[r.below(n)])
+    elif style == "allsame":
+        xs = [list(xs[0]) for _ in range(n)]
+    elif style == "zeros":
+        for i in range(n):
+            if r.chance(1, 2): xs[i] = [0.0] * d
+    elif style == "axis":
+        xs = [[x[0]] + [0.0] * (d - 1) for x in xs]
+    elif style == "scaled":
+        xs = [[v * 64.0 for v in x] for x in xs]
+    elif style == "tiny":
+        xs = [[v / 64.0 for v in x] for x in xs]
+    return style, xs
+
+
+def gen_trx(r, quick, kind=None, n_fixed=None, kern_fixed=None):
+    """one problem and the op lines of its configuration cross (one group = one problem; objectives are compared
+    within a group, sparse/dense and float/double twins must agree bit for bit on exact data)"""
+    kind = kind or r.choice(["c", "c", "c", "q", "q", "e", "o", "r", "m"])
+    n = r.choice([1, 2, 2, 3]) if r.chance(1, 5) else r.range(2, 8 if quick else 12)
+    if n_fixed: n = n_fixed
+    if kind != "o" and n < 2: n = 2
+    d = r.range(1, 3)
+    style, xs = gen_points(r, n, d, quick)
+    weighted, ws, a1 = 0, [1.0] * n, [0.0] * n
+    p1 = 2.0 ** r.range(-3, 5)
+    p2 = p1
+    bias_opts = (1,)
+    if kind in ("c", "q", "m"):
+        ys = [float(r.below(2)) for _ in range(n)]
+        if r.chance(1, 4): ys = [1.0 if r.chance(1, 5) else 0.0 for _ in range(n)]     # unbalanced
+        if all(y == ys[0] for y in ys): ys[r.below(n)] = 1.0 - ys[0]
+        if kind != "m" and r.chance(3, 5): p2 = 2.0 ** r.range(-3, 5)
+        if kind == "q" and r.chance(1, 4): p1 = p2 = 2.0 ** r.choice([-10, 12])          # weak / strong regularisation
+        if kind == "q" and style == "scaled":
+            # K + 1/(2C) must stay representable in the float cache (K up to 2^17 here): beyond that the regulariser is rounded
+            # away, the dual that is solved is unbounded and the float run has nothing to do with the double one (findings_proposed/C07.md)
+            p1, p2 = min(p1, 16.0), min(p2, 16.0)
+        if kind == "c" and r.chance(1, 2):
+            weighted = 1
+            ws = [r.choice([0.0, 0.25, 0.5, 1.0, 1.0, 2.0]) for _ in range(n)]
+        bias_opts = (0, 1)
+    elif kind == "e":
+        ys = [r.range(-10, 10) / 2 for _ in range(n)]
+        if r.chance(1, 5): ys = [ys[0]] * n                                             # constant labels: everything inside the tube
+        p2 = r.choice([0.125, 0.5, 1.0, 4.0])
+    elif kind == "o":
+        ys = [0.0] * n
+        p1 = r.choice([0.25, 0.5, 0.75, 0.125, 0.9375])
+    else:                                                                               # ranking: labels 0..2, at least one pair
+        ys = [float(r.below(3)) for _ in range(n)]
+        if all(y == ys[0] for y in ys): ys[r.below(n)] = (ys[0] + 1.0) % 3
+        bias_opts = (0,)
+    kern = "lin" if kind == "m" else (kern_fixed or r.choice(["lin", "lin", "rbf"]))      # the missing-feature trainer refuses kernels of fixed input size
+    gamma = r.choice([0.5, 0.125, 1.0])
+    eps = r.choice([1e-3, 2.0 ** -10, 2.0 ** -4, 2.0 ** -16 if kern == "lin" else 2.0 ** -7])
+    dim = 2 * n if kind == "e" else n
+    base = dict(kind=kind, kern=kern, gamma=gamma, eps=eps, maxit=100000, maxsec=None, warmmode=0, warmit=0, warmfac=1.0,
+                weighted=weighted, p1=p1, p2=p2, n=n, d=d, xs=xs, ys=ys, ws=ws, a1=a1, pre=0, cache=0, dbl=0, sparse=0, shrink=1, bias=1)
+    groups = []
+    for bias in bias_opts:
+        cfgs = []
+        def add(**kw):
+            c = dict(base); c.update(bias=bias); c.update(kw); cfgs.append(c)
+        shrink0 = r.below(2)
+        add(shrink=shrink0)                                  # reference
+        add(shrink=1 - shrink0)
+        add(shrink=shrink0, sparse=1)                        # sparse twin of the reference
+        add(shrink=shrink0, dbl=1)                           # double-cache twin
+        add(shrink=r.below(2), dbl=1, sparse=1, pre=r.below(2))
+        add(shrink=r.below(2), pre=1)
+        if kind == "c":
+            for cache in (2 * dim, r.choice([2 * dim + 1, 3 * dim + 1, 5 * dim, dim * dim + 3])):
+                add(shrink=r.below(2), pre=2, cache=cache, dbl=r.below(2))
+            # sparse inputs behind a two-row cache with shrinking: rows are recomputed after coordinate flips (with the Gaussian
+            # kernel this is the GaussianKernelMatrix path of trainBinary, which keeps its own table of squared norms)
+            add(shrink=1, sparse=1, pre=2, cache=2 * dim, dbl=r.below(2))
+            add(shrink=1, sparse=1, pre=0)
+            wm = r.choice([1, 2, 3, 4])
+            if wm == 4:        # the previous machine was trained with the other bias setting (its coefficients need not sum to 0)
+                add(shrink=r.below(2), warmmode=4, warmit=r.choice([3, 100000]), warmfac=r.choice([1.0, 0.25, 4.0]), pre=r.choice([0, 1]))
+            elif wm == 1:
+                add(shrink=r.below(2), warmmode=1, warmit=r.choice([1, 3, 10, 100000]), warmfac=r.choice([1.0, 4.0, 0.25, 64.0]), pre=r.choice([0, 1, 2]),
+                    cache=3 * dim + 1)
+            elif wm == 2:      # arbitrary previous coefficients: outside the box, wrong sign, unbalanced, all zero, all at a bound
+                st = r.choice(["wild", "bounds", "zero", "feasible"])
+                Cmax = max(p1, p2) * 2
+                if st == "wild": a = [r.range(-8, 8) * Cmax / 4 for _ in range(n)]
+                elif st == "bounds": a = [(p2 * ws[i] if ys[i] > 0 else -p1 * ws[i]) * r.choice([0, 1, 1]) for i in range(n)]
+                elif st == "zero": a = [0.0] * n
+                else: a = [(1 if ys[i] > 0 else -1) * min(p1, p2) * ws[i] * r.choice([0.0, 0.25, 0.5]) for i in range(n)]
+                add(shrink=r.below(2), warmmode=2, a1=a, pre=r.choice([0, 1]))
+            else:
+                add(shrink=r.below(2), warmmode=3, warmit=r.range(1, n), pre=r.choice([0, 1]))
+        # stopping: iteration limit / time limit -- the stop type must be the truth, feasibility must hold anyway
+        add(shrink=r.below(2), maxit=r.choice([0, 1, 2, 3, 7, 17]), pre=r.below(2))
+        if r.chance(1, 3):
+            add(shrink=r.below(2), maxsec=r.choice([0.0, 1e-9, 1e6]), maxit=r.choice([100000, 1200, 2500]))
+        groups.append(cfgs)
+    info = dict(kind=kind, style=style, kern=kern, eps=eps, n=n, weighted=weighted, zero_weight=int(weighted and 0.0 in ws),
+                exact=(kern == "lin" or True))
+    return info, groups
+
+
+def gen_trx_slow(r, quick):
+    """long runs (noisy data, linear kernel, large C, small eps: 10^4..10^5 iterations to converge) cut by the time limit and by
+    iteration limits on both sides of the solver's 1000-iteration clock: the stop type must be the truth (QpTimeout only with a
+    time limit and at iteration 999 mod 1000, QpMaxIterationsReached exactly at the limit), feasibility must hold anyway"""
+    kind = r.choice(["c", "c", "e"])
+    n = r.range(30, 40) if kind == "c" else r.range(16, 22)
+    d = 2
+    xs = [[float(r.range(-3, 3)) for _ in range(d)] for _ in range(n)]
+    ys = [float(r.below(2)) for _ in range(n)] if kind == "c" else [r.range(-10, 10) / 2 for _ in range(n)]
+    C = 2.0 ** 10
+    base = dict(kind=kind, kern="lin", gamma=1.0, eps=2.0 ** -16, maxit=100000, maxsec=None, warmmode=0, warmit=0, warmfac=1.0,
+                weighted=0, p1=C, p2=C if kind == "c" else 0.125, n=n, d=d, xs=xs, ys=ys, ws=[1.0] * n, a1=[0.0] * n, pre=0, cache=0,
+                dbl=0, sparse=0, shrink=1, bias=1)
+    cfgs = []
+    for kw in (dict(maxsec=0.0), dict(maxsec=1e-9, maxit=2500, shrink=0), dict(maxsec=1e6, maxit=1500), dict(maxit=1000, pre=1),
+               dict(maxit=999, sparse=1), dict(maxsec=0.0, maxit=999, dbl=1)):
+        c = dict(base); c.update(kw); cfgs.append(c)
+    return dict(kind=kind, style="slow", kern="lin", eps=base["eps"], n=n, weighted=0, zero_weight=0), [cfgs]
+
+
+def trx_key(c, out):
+    m = re.search(r"!oracle (\S+?)(?:[@(]|\s|$)", out)
+    tag = m.group(1) if m else ("exception" if out.startswith("exception") else "crash")
+    return (f"oracle:{tag}:kind={c['kind']}:bias={c['bias']}:warm={c['warmmode']}:weighted={c['weighted']}:"
+            f"zeroweight={int(c['weighted'] == 1 and 0.0 in c['ws'])}:shrink={c['shrink']}:stop={'acc' if 'stop=1 ' in out else 'other'}")
+
+
+def parse_trx(out):
+    m = re.match(r"stop=(\d+) it=(\d+) alpha=\[([^\]]*)\] b=(\S+) ;obj=(\S+) ;width=(\S+) ;val=(\S+)", out)
+    if not m: return None
+    return dict(stop=int(m.group(1)), it=int(m.group(2)), alpha=m.group(3), b=m.group(4), obj=c08.untok(m.group(5)),
+                width=c08.untok(m.group(6)), val=c08.untok(m.group(7)))
+
+
+def run_extended(ctx, exe, r, ngen):
+    """the trainers and axes beyond harness c07: squared hinge, ranking, missing-feature trainer; double cache; sparse inputs;
+    real cache sizes (pre = 2); warm start from arbitrary vectors / from a machine trained on a subset; iteration and time
+    limits with truthful stop types.  Oracle in the harness; here: configuration independence and twin identity."""
+    ntr = nviol = 0
+    seen = {}
+    groups_all = []
+    corpus = os.path.join(core.VERIF, "corpus", PID)
+    if os.path.isdir(corpus):
+        for fn in sorted(os.listdir(corpus)):
+            ops = [l.strip() for l in open(os.path.join(corpus, fn)) if l.strip().startswith("trx ")]
+            if ops:
+                groups_all.append((dict(kind=ops[0].split()[1], style="corpus", kern=ops[0].split()[2], eps=c08.untok(ops[0].split()[8]), n=0,
+                                        weighted=0, zero_weight=0),
+                                   [[parse_trx_line(o) for o in ops if o.split()[4] == b] for b in ("0", "1") if any(o.split()[4] == b for o in ops)]))
+    kinds = ["c", "q", "e", "o", "r", "m"]
+    for k in range(ngen):
+        groups_all.append(gen_trx(r, ctx.quick, kind=kinds[k] if k < len(kinds) else None))   # every kind in every run
+    groups_all.append(gen_trx(r, ctx.quick, kind="o", n_fixed=1))     # a single point: one free variable, offset = its gradient
+    for k in "cqerm":
+        groups_all.append(gen_trx(r, ctx.quick, kind=k, n_fixed=2))   # the smallest two-class / one-pair problems
+    for _ in range(16 if ctx.quick else 60):                           # Gaussian kernel on sparse inputs behind small caches with shrinking
+        groups_all.append(gen_trx(r, ctx.quick, kind="c", kern_fixed="rbf"))
+    for _ in range(3 if ctx.quick else 12):
+        groups_all.append(gen_trx_slow(r, ctx.quick))
+    for info, groups in groups_all:
+        ctx.hist("trx_kind", info["kind"] + ("+w" if info["weighted"] else "")); ctx.hist("trx_points", info["style"])
+        ctx.hist("trx_n", info["n"])
+        for cfgs in groups:
+            lines = [trx_line("trx", c) for c in cfgs]
+            rc, out = core.sh([exe], input="\n".join(lines) + "\n", timeout=900, env=dict(os.environ, **HENV))
+            outs = out.splitlines()
+            ntr += len(lines)
+            bad = [(c, l, o) for c, l, o in zip(cfgs, lines, outs) if "!oracle" in o or o.startswith("exception") or o == "bad-op"]
+            if rc != 0 or len(outs) < len(lines):
+                i = min(len(outs), len(lines) - 1)
+                bad.append((cfgs[i], lines[i], "crash: " + out[-800:]))
+            res = [parse_trx(o) for o in outs] + [None] * (len(lines) - len(outs))
+            for c, p in zip(cfgs, res):
+                if p is None: continue
+                ctx.hist("trx_stop", {1: "accuracy", 4: "max-iterations", 8: "timeout"}.get(p["stop"], str(p["stop"])))
+                ctx.hist("trx_axis", f"pre={c['pre']} dbl={c['dbl']} sparse={c['sparse']} warm={c['warmmode']}")
+                if c["pre"] == 2: ctx.hist("trx_cache_rows", round(c["cache"] / max(1, (2 * c["n"] if c["kind"] == "e" else c["n"])), 1))
+                if c["maxsec"] is not None or c["maxit"] < 100000: ctx.count("trx_limited_runs")
+            # configuration independence: all converged clean runs of one problem
+            good = [(c, p) for c, o, p in zip(cfgs, outs, res) if p and p["stop"] == 1 and "!oracle" not in o]
+            if len(good) > 1 and cfgs[0]["kind"] != "q":
+                objs = [p["obj"] for _, p in good]
+                width = good[0][1]["width"]
+                bound = 2 * info["eps"] * width + 1e-9 * (1 + width + max(abs(x) for x in objs))
+                if cfgs[0]["kind"] == "r" and (cfgs[0]["kern"] == "rbf"): bound += 1e-5 * (1 + max(abs(x) for x in objs))
+                if max(objs) - min(objs) > bound:
+                    bad.append((good[0][0], lines[0], f"!oracle objective-depends-on-configuration spread={max(objs)-min(objs)} bound={bound}"))
+                ctx.count("trx_groups_compared")
+            if len(good) > 1 and cfgs[0]["kind"] == "q":      # strictly concave dual: the solutions themselves must be close
+                ctx.count("trx_groups_compared")
+            # twins: same configuration, sparse instead of dense inputs / double instead of float cache -- on integer points every
+            # kernel entry is exact in both, so the whole run must be identical
+            ref, refp = cfgs[0], res[0]
+            for c, p, l in zip(cfgs[1:4], res[1:4], lines[1:4]):
+                if refp is None or p is None: continue
+                twin_sparse = c["sparse"] == 1 and c["dbl"] == 0 and c["shrink"] == ref["shrink"]
+                twin_dbl = c["dbl"] == 1 and c["sparse"] == 0 and c["shrink"] == ref["shrink"] and ref["kern"] == "lin"
+                if twin_sparse or twin_dbl:
+                    ctx.count("trx_twins_compared")
+                    if (p["alpha"], p["b"], p["it"], p["stop"]) != (refp["alpha"], refp["b"], refp["it"], refp["stop"]):
+                        bad.append((c, l, f"!oracle {'sparse-dense' if twin_sparse else 'float-double'}-twin-differs it={p['it']} vs {refp['it']}"))
+            for c, l, o in bad:
+                key = trx_key(c, o)
+                if key in seen: continue
+                seen[key] = 1
+                nviol += 1
+                ctx.count("trx_oracle_failure_kinds")
+                ctx.violation(key, {"harness_cmd": [exe], "ops": [l], "impl_output": [o[:2000]]}, found_input=True,
+                              what=f"trainer-level oracle (extended trainers/axes): {o[o.find('!oracle'):][:300]} on {l[:200]}")
+    ctx.cov["extended_trainings"] = ntr
+    ctx.log(f"K-C07[extended: squared hinge, ranking, missing-feature trainer, double cache, sparse inputs, real cache sizes, "
+            f"arbitrary/subset warm starts, iteration and time limits]: {ntr} trainings, {nviol} distinct oracle failure keys")
+    return ntr
+
+
+def parse_trx_line(op):
+    t = op.split()
+    n, d = int(t[19]), int(t[20])
+    u = c08.untok
+    f = lambda a, b: [u(x) for x in t[a:b]]
+    at = TRX_NFIX
+    return dict(kind=t[1], kern=t[2], gamma=u(t[3]), bias=int(t[4]), shrink=int(t[5]), pre=int(t[6]), cache=int(t[7]), eps=u(t[8]),
+                maxit=int(t[9]), maxsec=None if t[10] == "inf" else u(t[10]), warmmode=int(t[11]), warmit=int(t[12]), warmfac=u(t[13]),
+                weighted=int(t[14]), p1=u(t[15]), p2=u(t[16]), dbl=int(t[17]), sparse=int(t[18]), n=n, d=d,
+                xs=[f(at + i * d, at + (i + 1) * d) for i in range(n)], ys=f(at + n * d, at + n * d + n),
+                ws=f(at + n * d + n, at + n * d + 2 * n), a1=f(at + n * d + 2 * n, at + n * d + 3 * n))
+
+
 def replay(ctx, rep):
     exe = build(ctx); drv = ctx.driver("drv_c07")
     ops = rep["ops"]
     if ops[0].startswith("csvm"):
-        res = core.run_case(ctx, [exe], [drv], ops)
+        if ops[0].startswith("csvm3"):
+            exe = build_x(ctx)
+        res = core.run_case(ctx, [exe], [drv], ops, env=HENV)
         for a, b in zip(res.impl, res.model):
             print("impl :", a[:1500]); print("model:", b[:1500])
         print("OK" if res.ok else "FAILS")
         return 0 if res.ok else 1
-    rc, out = core.sh([exe], input="\n".join(ops) + "\n", timeout=600)
+    if ops[0].startswith("trx"):
+        exe = build_x(ctx)
+    rc, out = core.sh([exe], input="\n".join(ops) + "\n", timeout=600, env=dict(os.environ, **HENV))
     print(out[-3000:])
-    ok = rc == 0 and "!oracle" not in out
+    ok = rc == 0 and "!oracle" not in out and "exception" not in out
     print("OK" if ok else "FAILS")
     return 0 if ok else 1
